@@ -56,7 +56,8 @@ def showRes : Res → String
   | .ok => "ok" | .err => "err" | .closedErr => "closed" | .panic => "panic" | .deadlock => "deadlock" | .crash => "crash"
 
 def parseRes : String → Option Res
-  | "ok" => some .ok | "err" => some .err | "closed" => some .closedErr | "panic" => some .panic | _ => none
+  | "ok" => some .ok | "err" => some .err | "closed" => some .closedErr | "panic" => some .panic
+  | "crash" => some .crash | _ => none
 
 def showProt : Prot → String | .none => "none" | .ro => "ro" | .rw => "rw"
 def parseProt : String → Option Prot
